@@ -7,15 +7,16 @@ PID = "C01"
 LEAN_MODULE = "NiVerif.Props.C01"
 NAMESPACE = "Props.C01"
 DRIVER = "drivers/Wfm.lean"
-GEN_MODULES = ["Geometry"]
-EXTRA_LEAN_MODULES = ["NiVerif.Model.WfmProto"]
+GEN_MODULES = ["Geometry", "Args"]
+EXTRA_LEAN_MODULES = ["NiVerif.Model.WfmProto", "NiVerif.Props.Args"]
 THEOREMS = ["view_shape", "ctorNew_spec", "ctorArr_spec", "setCapacity_spec", "setCount_spec", "setTiming_spec",
             "writeView_spec", "getData_spec", "increaseCapacity_spec", "appendArray_spec", "copyAll_spec",
             "appendWaveforms_spec", "loadData_spec", "inv_step", "inv_reachable", "view_refines",
             "Proofs.Wfm.view_append", "Proofs.Wfm.view_load", "Proofs.Wfm.view_grow", "Proofs.Wfm.view_write",
             "Proofs.Wfm.window_ok",
             "gen_window_eq_model", "gen_window_inside", "gen_provided_geometry_eq_model", "gen_provided_geometry_invariant", "gen_new_geometry_eq_model",
-            "gen_new_geometry_invariant", "gen_set_sample_count_eq_model", "gen_set_capacity_eq_model", "gen_set_capacity_keeps_window"]
+            "gen_new_geometry_invariant", "gen_set_sample_count_eq_model", "gen_set_capacity_eq_model", "gen_set_capacity_keeps_window",
+            "Props.Args.gen_arg_to_int_spec", "Props.Args.gen_arg_to_int_plain", "Props.Args.gen_arg_to_uint_eq_prelude", "Props.Args.gen_arg_to_uint_plain", "Props.Args.gen_arg_to_uint_kind_independent"]
 RULE = ("seeded histories of 1-14 (thorough: up to 40) public calls per object on the four container classes x every "
         "supported raw dtype: construction from sizes or arrays, append of arrays / waveforms / sequences, load_data "
         "with and without copy and with sub-ranges, capacity / sample_count / timing assignment, writes through the data "
@@ -387,6 +388,9 @@ def self_aliasing_appends(ctx):
 
 def run(ctx):
     world = H.World(ctx.rng)
+    # the kinds of object accepted where an integer is (tier T12: Gen/Args.lean, Props/Args.lean) against the real converters
+    from props import args_harness
+    ctx.extra["int_arg_cases"] = args_harness.int_arg_cases(ctx)
     n_hist = 900 if ctx.quick else 5000
     for i in range(n_hist):
         kind = ["analog", "complex", "spectrum", "digital"][i % 4]
